@@ -331,6 +331,15 @@ def decode_variable""")]),
            """    if "records_per_chunk" in backend_options:
         open_alos2.__defaults__[1]["records_per_chunk"] = backend_options["records_per_chunk"]
     root = io.open(path, **backend_options)""")]),
+    ("c10_stage_in_tmp", "C10", "violation",
+     "the index is staged in the system temp dir and moved into place: opening writes outside "
+     "the user cache directory",
+     [(CA, """    local.write_text(encoded)""", """    import shutil
+    import tempfile
+
+    with tempfile.NamedTemporaryFile("w", suffix=".index", delete=False) as f:
+        f.write(encoded)
+    shutil.move(f.name, local)""")]),
     ("c09_decode_lenient_prefix", "C09", "violation",
      "a torn index whose text ends inside the top-level object is 'completed' and used",
      [(CA, """    try:
